@@ -26,6 +26,27 @@ def gen_cases(rng, n):
     while len(out) < n:
         large, very = rng.randrange(2), rng.randrange(2)
         mn, _ = thresholds(large, very)
+        if rng.random() < 0.35:
+            # vivid text (on or next to the surface of the sRGB gamut: a channel at 0 or 255, any hue) against a background whose
+            # grey level is chosen so that the pair sits just below its minimum, on either side of the text
+            import colorsys
+            h = rng.random() if rng.random() < 0.6 else rng.uniform(0.75, 0.95)        # magenta / purple / pink more often
+            t = tuple(int(round(255 * x)) for x in colorsys.hsv_to_rgb(h, rng.choice([1.0, 1.0, rng.uniform(0.7, 1.0)]), rng.choice([1.0, rng.uniform(0.4, 1.0)])))
+            want = mn * rng.uniform(0.8, 0.999)
+            tint = tuple(rng.randrange(0, 24) for _ in range(3))
+            side = rng.choice(["dark", "light"])
+            lo_g, hi_g = (0, 255)
+            found = None
+            for g in (range(0, 256) if side == "dark" else range(255, -1, -1)):
+                b = tuple(max(0, min(255, g + d)) for d in tint)
+                if ratio(t, b) < want:
+                    # the first grey level (from the far end) at which the ratio has dropped below `want`
+                    found = b
+                    break
+            if found is None or ratio(t, found) >= mn or ratio(t, found) < mn * 0.75:
+                continue
+            out.append((t, found, large, very))
+            continue
         bgk = rng.random()
         if bgk < 0.3:
             b = tuple(rng.randrange(0, 70) for _ in range(3))
@@ -69,7 +90,7 @@ def check(run):
     q = run.quick()
     n = 900 if q else 20000
     run.rule = ("pairs 0-20 %% below the minimum of their (large, very_readable) setting, text lighter/darker than dark, "
-                "light and arbitrary backgrounds; a case is non-trivial when the independent scan (model leaves, %d "
+                "light and arbitrary backgrounds, about a third of them vivid text (gamut surface, every hue) against greyish backgrounds; a case is non-trivial when the independent scan (model leaves, %d "
                 "lightness values on the text's own chroma/hue line) finds a witness within dE 1.5 clearing the minimum "
                 "by 0.05; each witnessed case is run in modes 0, 1, 2" % SCAN)
     base = gen_cases(run.rng, n)
